@@ -118,6 +118,7 @@ type Ctx struct {
 	evals       atomic.Int64
 	nontrivial  atomic.Int64
 	capHit      atomic.Bool
+	stretched   atomic.Bool
 	internalErr []string
 	notes       []string
 }
@@ -142,14 +143,62 @@ func (c *Ctx) Quick() bool { return c.Tier != "thorough" }
 
 // Expired reports whether the time cap was reached (and remembers that it was).
 func (c *Ctx) Expired() bool {
-	if time.Now().After(c.Deadline) {
-		c.capHit.Store(true)
-		return true
+	now := time.Now()
+	c.mu.Lock()
+	dl := c.Deadline
+	c.mu.Unlock()
+	if !now.After(dl) {
+		return false
 	}
-	return false
+	// The budget is meant for a machine that is otherwise idle.  When it is oversubscribed (several
+	// checks at once), the nominal deadline is stretched by the load factor, at most MaxStretch times:
+	// a check that silently skips its exhaustive core because the machine was busy is worse than a slow one.
+	if !c.stretched.Load() {
+		c.stretched.Store(true)
+		if f := loadFactor(); f > 1.3 {
+			max := 5.0
+			if c.Tier == "thorough" {
+				max = 2
+			}
+			if f > max {
+				f = max
+			}
+			c.mu.Lock()
+			budget := c.Deadline.Sub(c.Start)
+			c.Deadline = c.Start.Add(time.Duration(float64(budget) * f))
+			dl = c.Deadline
+			c.cov["time_budget_stretched_by_load_factor"] = f
+			c.mu.Unlock()
+			if !now.After(dl) {
+				return false
+			}
+		}
+	}
+	c.capHit.Store(true)
+	return true
+}
+
+// loadFactor is the 1-minute load average divided by the number of CPUs (1 when unknown).
+func loadFactor() float64 {
+	b, err := os.ReadFile("/proc/loadavg")
+	if err != nil {
+		return 1
+	}
+	fs := strings.Fields(string(b))
+	if len(fs) == 0 {
+		return 1
+	}
+	l, err := strconv.ParseFloat(fs[0], 64)
+	if err != nil {
+		return 1
+	}
+	return l / float64(runtime.NumCPU())
 }
 
 func (c *Ctx) CapHit() bool { return c.capHit.Load() }
+
+// MarkCapped records that a part of the check (a worker process) stopped at its time cap.
+func (c *Ctx) MarkCapped() { c.capHit.Store(true) }
 
 // Eval counts n evaluated cases, nt of them non-trivial.
 func (c *Ctx) Eval(n, nt int64) {
